@@ -41,6 +41,10 @@ var defs = map[string]checkDef{
 	"C12": {Engine: "A", Pkg: "./enga", MinEvals: 30000},
 	"C14": {Engine: "A", Pkg: "./enga", MinEvals: 1000},
 	"C15": {Engine: "A", Pkg: "./enga", MinEvals: 1000},
+	"C16": {Engine: "A", Pkg: "./enga", MinEvals: 1000},
+	"C17": {Engine: "A", Pkg: "./enga", MinEvals: 1000},
+	"C18": {Engine: "A", Pkg: "./enga", MinEvals: 1000},
+	"C19": {Engine: "A", Pkg: "./enga", MinEvals: 500},
 	"C13": {Engine: "A", Pkg: "./enga", MinEvals: 132496, Exhaust: false},
 }
 
